@@ -163,13 +163,32 @@ def main(argv=None):
     aux_jobs = [] if a.only else [(pid, i, a.tier, deadline) for i in range(len(getattr(mod, "AUX", [])))]
     results, aux_results = [], []
     ctxmp = multiprocessing.get_context("fork")
-    with concurrent.futures.ProcessPoolExecutor(max_workers=a.jobs, mp_context=ctxmp) as ex:
-        futs = [ex.submit(_run_slice, j) for j in jobs]
-        afuts = [ex.submit(_run_aux, j) for j in aux_jobs]
-        for f in futs:
+    ex = concurrent.futures.ProcessPoolExecutor(max_workers=a.jobs, mp_context=ctxmp)
+    futs = [ex.submit(_run_slice, j) for j in jobs]
+    afuts = [ex.submit(_run_aux, j) for j in aux_jobs]
+    # watchdog: a path that never returns (loop on a symbolic condition inside code under test) must not hang the check
+    grace = 60 + 0.25 * budget
+    concurrent.futures.wait(futs + afuts, timeout=max(1.0, deadline + grace - time.time()))
+    hung = 0
+    for f, j in zip(futs, jobs):
+        if f.done():
             results.append(f.result())
-        for f in afuts:
+        else:
+            hung += 1
+            results.append({"harness": j[1], "slice": j[2], "paths": 0, "reached": 0, "vacuous": 0, "queries": 0, "solver_s": 0.0, "undecided": 1,
+                            "exhaustive": False, "violations": [], "known_hits": [], "samples": [], "errors": [], "validated": 0, "validation_diverged": 0,
+                            "functions": [], "obligations": 0, "nonreplaying": 0, "max_depth": 0, "wall_s": 0.0,
+                            "inconclusive_reasons": ["slice did not return within the budget + grace (a path that does not terminate?)"]})
+    for f, j in zip(afuts, aux_jobs):
+        if f.done():
             aux_results.append(f.result())
+        else:
+            hung += 1
+            aux_results.append({"name": "aux-%d" % j[1], "exhaustive": False, "errors": [], "violations": []})
+    if hung:
+        for proc in list(getattr(ex, "_processes", {}).values()):
+            proc.kill()
+    ex.shutdown(wait=not hung, cancel_futures=True)
     wall = time.time() - t0
 
     # ---------------------------------------------------------------------------------------------- aggregate
